@@ -3,8 +3,9 @@ C12-PERSEARCH, C12-STATICS, C12-SEED (DESIGN.md §3)."""
 from collections import deque
 
 from facts import (norm, show, walk, strip_refs, deep_strip, is_call_to, callee_name, find_calls, guard_conditions,
-                   static_accesses)
+                   static_accesses, decision_paths)
 import pC05
+import shared_mutants
 
 EXPLANATION = (
     "Decides purity and reset clauses of C12, not the equality of two actual runs: (EFFECT) in the call-graph cone of "
@@ -71,23 +72,67 @@ def rule_effect(fx, rep, search, cone):
             bad(f"source/{norm(b.name)}/{cn.split('::')[-1]}", f"`{b.name}` (reachable from search::search) uses a nondeterminism source `{cn}`", b, t.get("line"))
     # (ii) polling functions: clock reads only in the Clocks / ExactTime arms
     variants = {v["discr"]: v["name"] for v in fx.adt("search::TimeControl")["variants"]}
+    free = {v["name"] for v in fx.adt("search::TimeControl")["variants"] if not v["fields"]}
+    poll_closures = set()
     for fn in ("TimeStrategy::should_stop", "TimeStrategy::should_start_new_search"):
         b = fx.one(fn)
-        for bb, t in b.calls_to("TimeStrategy::elapsed"):
+        # path by path: an answer that depends on the clock (in its value or in a test on the way) is given only where the
+        # time control carries a limit: under a finite variant of TimeControl, or under `Some` of an Option-typed limit
+        # that TimeStrategy::new leaves None without a limit (also as the receiver of is_some_and / is_none_or / map_or)
+        paths = decision_paths(b, max_paths=400)
+        if not paths:
+            rep.notes.append(f"C12-EFFECT: paths of `{fn}` not enumerable; poll clause not decided")
+            continue
+
+        def clocked(e):
+            if find_calls(e, "TimeStrategy::elapsed", "Instant::elapsed", "Instant::now"):
+                return "direct"
+            for x in walk(e):
+                if isinstance(x, tuple) and x and x[0] == "agg" and str(x[1]).startswith("closure:"):
+                    cb = fx.bodies.get(str(x[1])[len("closure:"):])
+                    if cb is not None and (cb.calls_to("TimeStrategy::elapsed") or cb.calls_to("Instant::elapsed")):
+                        poll_closures.add(cb.name)
+                        return "closure"
+            return None
+
+        def option_receiver_ok(e):
+            # every closure that reads the clock is handed to an Option combinator on a limit field that is None without a limit
+            for c in [x for x in walk(e) if isinstance(x, tuple) and x and x[0] == "call" and isinstance(x[1], str)]:
+                if any(clocked(a) == "closure" for a in c[2][1:]) :
+                    if not (c[1].split("::")[-1] in ("is_some_and", "is_none_or", "map_or", "map", "and_then", "filter", "is_some_and") and "Option" in c[1]):
+                        return False
+                    f = pC05._self_field(c[2][0])
+                    if not f or not pC05.none_without_limit(fx, f):
+                        return False
+            return True
+
+        for conds, ret, _bb in paths:
+            if ret is None:
+                continue
+            where = [clocked(ret)] + [clocked(c) for c, v in conds]
+            if not any(where):
+                continue
             n += 1
-            arm = None
-            for (e, pol, where) in guard_conditions(b, bb, expand_named=True):
-                e2 = deep_strip(e)
-                if isinstance(e2, tuple) and e2[0] == "discr" and isinstance(e2[1], tuple) and e2[1][0] == "field" and e2[1][2] == "time_control" and isinstance(pol, int):
-                    arm = variants.get(pol)
-            good = arm in ("Clocks", "ExactTime")
+            sel = None
+            some_ok = False
+            for c, v in conds:
+                d = deep_strip(c)
+                if isinstance(d, tuple) and d and d[0] == "discr":
+                    f = pC05._self_field(d[1])
+                    if f == "time_control":
+                        sel = pC05._selected(variants, v)
+                    elif f and v == 1 and pC05.none_without_limit(fx, f):
+                        some_ok = True
+            good = (sel is not None and None not in sel and not (sel & free)) or some_ok
+            if not good and "direct" not in where:
+                good = all(option_receiver_ok(e) for e in [ret] + [c for c, v in conds] if clocked(e))
             rep.obligation(good)
             if not good:
-                bad(f"poll/{fn}", f"`{fn}` reads the clock outside the Clocks/ExactTime arms (arm: {arm}): a depth-limited search then depends on wall-clock time", b, t.get("line"))
+                bad(f"poll/{fn}", f"`{fn}` lets the clock decide an answer that is not confined to time controls with a limit (selected: {sorted(sel) if sel else 'any'}): a depth-limited search then depends on wall-clock time", b, b.line)
     # (iii) every other clock read flows only into reported statistics
     elapsed = fx.one("TimeStrategy::elapsed")
     for (b, bb, t) in fx.callers_of(lambda nm: fx.body(nm) is not None and fx.body(nm).name == elapsed.name):
-        if norm(b.name).endswith("TimeStrategy::should_stop") or norm(b.name).endswith("TimeStrategy::should_start_new_search"):
+        if norm(b.name).endswith("TimeStrategy::should_stop") or norm(b.name).endswith("TimeStrategy::should_start_new_search") or b.name in poll_closures:
             continue
         if b.name not in cone:
             continue
@@ -379,6 +424,8 @@ TB = "src/engine/search/tables.rs"
 TC = "src/engine/search/time_control.rs"
 SM = "src/engine/search/mod.rs"
 MUTANTS = [
+    {"name": "benign: Option-typed limits (match form)", "benign": True, "edits": shared_mutants.OPT_MATCH},
+    {"name": "benign: Option-typed limits (closure form)", "benign": True, "edits": shared_mutants.OPT_CLOSURES},
     {"name": "TT reset forgets generation", "expect": "C12-RESET",
      "edits": [(TT, "        self.generation = 0;\n        self.occupied = 0;\n    }\n\n    pub fn resize", "        self.occupied = 0;\n    }\n\n    pub fn resize")]},
     {"name": "table entries cleared only when hashfull > 0 (seed C12-1)", "expect": "C12-RESET",
